@@ -26,7 +26,28 @@ sys.exit(0)
 '''
 
 
+CLONE_OR = '''
+import sys
+from onnxscript.rewriter import pattern
+def target(op, x, y):
+    a = op.Relu(x)
+    b = op.Add(x, y)
+    return op.Mul(pattern.OrValue([op.Add(a, y), op.Add(b, op.Add(x, y))]), y)
+def repl(op, x, y):
+    return op.Identity(x)
+rule = pattern.RewriteRule(target, repl)
+try:
+    rs = pattern.RewriteRuleSet([rule], commute=True)
+except Exception as e:
+    print("RewriteRuleSet([rule], commute=True) with an untagged OrValue in the pattern raises", type(e).__name__ + ":", e)
+    sys.exit(1)
+sys.exit(0)
+'''
+
+
 def replay(ob):
+    if "clone.or_pattern" in ob["name"]:
+        return CLONE_OR
     if "merge.keeps_node_bindings" in ob["name"] or "merge.keeps_value_bindings" in ob["name"]:
         return MERGE
     return None
